@@ -150,7 +150,7 @@ pub fn scenarios(tier: Tier) -> Vec<Scenario> {
         for msgs in [vec![S], vec![L2], vec![S, S], vec![S, L2], vec![L2, S], vec![L3, S, S], vec![S, L3, One]] {
             for att in [None, Some(0), Some(msgs.len() - 1)] {
                 for real in [false, true] {
-                    add(P { msgs: msgs.clone(), attach_at: att, real_small_buffer: real }, if msgs.len() <= 2 { 3 } else { 2 });
+                    add(P { msgs: msgs.clone(), attach_at: att, real_small_buffer: real }, if msgs.len() <= 1 { 4 } else if msgs.len() <= 2 { 3 } else { 2 });
                 }
             }
         }
